@@ -125,7 +125,7 @@ def gen(rng, tier):
     out.append(Case('num-procs', None, dict(seed=rng.randint(1, 10 ** 6), scenario='voxelize')))
     # binary search SELECTED on shapes with an EMPTY last domain span, at the domain end and inside (statement audit 5, S1):
     # the model line is the evaluation through the REPAIRED linear search (cevalr / sevalr / vevalr), which the selected
-    # repaired binary search equals (curve_/surface_/volume_eval_binsearchR_selected); oracle: binary = linear
+    # repaired binary search equals (curve_/surface_/volume_eval_binsearchR_selected; derivative tables of every evaluator on the binsearch spans = the R tables: derivatives_binsearchR_selected); oracle: binary = linear
     OPSR = {'curve': 'cevalr', 'surface': 'sevalr', 'volume': 'vevalr'}
     for _ in range(12 if tier == 'quick' else 150):
         d, k_ = S.empty_last_shape(rng)
